@@ -283,7 +283,8 @@ def c11_7(ctx, r):
             t = ctx.src(c).replace(" ", "")
             if (ctx.src(c.func) == "os.open" and "O_CREAT" in t and "lock_file" in t) or (ctx.src(c.func) == "open" and "lock_file" in t and any(m in t for m in ('"x"', '"w"', "'x'", "'w'"))) or (t.endswith(".touch()") and "lock" in t):
                 creates.append(n)
-    if not creates and any("lock_file" in ctx.src(n.stmt) and n.copy == "n" and ctx.enclosing(fn, n.stmt, (ast.ExceptHandler,)) for n in cfg.nodes if n.kind == "stmt"):
+    hasts = {id(h.ast) for h in handlers}
+    if not creates and any("lock_file" in ctx.src(n.stmt) and any(id(e) in hasts for e in ctx.enclosing(fn, n.stmt, (ast.ExceptHandler,))) for n in cfg.nodes if n.kind == "stmt"):
         raise AnalysisError("C11.7", "lock file re-creation has an unrecognised form")
     raises = [n for n in cfg.nodes if n.kind == "stmt" and isinstance(n.ast, ast.Raise) and ctx.enclosing(fn, n.ast, (ast.ExceptHandler,)) and any(h.ast in ctx.enclosing(fn, n.ast, (ast.ExceptHandler,)) for h in handlers)]
     r.check(bool(raises), "the handler re-raises", key_of(fn, "handler swallows"), fn.loc(handlers[0].ast), "the handler swallows the exception: callers continue with a half-updated state")
